@@ -136,12 +136,15 @@ def build(tier, seed):
         sc._shots = Shots(None if f.get("_shots") in (None, "none") else 1 + int(str(f["_shots"])[1:]) % 50)
         sc._graph, sc._specs, sc._batch_size = None, None, -1
         sc._obs_sharing_wires, sc._obs_sharing_wires_id = None, None
+        if "hash" in f:
+            _ = sc.hash                 # memoise the fingerprint, as an earlier cached execution would have done
         return sc
     w.stub_realize = {"Operator": real_op, "MeasurementProcess": real_mp, "QuantumScript": real_script}
 
     # ---- symbolic circuits ---------------------------------------------------------------------------------------------------
-    def script_t(shape, trainable):
-        """trainable: None (unset) or an int = length of the stored index list (symbolic entries)"""
+    def script_t(shape, trainable, memo=False):
+        """trainable: None (unset) or an int = length of the stored index list (symbolic entries); memo: the cached_property `hash`
+        has been evaluated before (its value sits in the instance __dict__)"""
         ops_l, meas_l = shape
 
         def mk(ctx, name):
@@ -151,18 +154,24 @@ def build(tier, seed):
             ops = [op(f"op{i}", n) for i, n in enumerate(ops_l)]
             meas = [Rec(MP, {"obs": None if n is None else op(f"obs{i}", n)}) for i, n in enumerate(meas_l)]
             tp = None if trainable is None else PyList([z3.Int(ctx.fresh_name(f"tr{j}")) for j in range(trainable)])
-            return Rec(QSC, {"_ops": PyList(ops), "_measurements": PyList(meas), "_trainable_params": tp,
-                             "_shots": z3.Const(ctx.fresh_name("shots"), LabelSort), "_graph": None, "_specs": None,
-                             "_batch_size": -1, "_obs_sharing_wires": None, "_obs_sharing_wires_id": None})
+            r = Rec(QSC, {"_ops": PyList(ops), "_measurements": PyList(meas), "_trainable_params": tp,
+                          "_shots": z3.Const(ctx.fresh_name("shots"), LabelSort), "_graph": None, "_specs": None,
+                          "_batch_size": -1, "_obs_sharing_wires": None, "_obs_sharing_wires_id": None})
+            if memo:
+                r.f["hash"] = z3.Const(ctx.fresh_name("memoised_hash"), LabelSort)
+            return r
 
         def gen(rng):
             def op(n):
                 return {"__class__": "Operator", "data": tuple(f"L{rng.randint(0, 40)}" for _ in range(n)), "ident": f"L{rng.randint(0, 5)}"}
             npar = sum(ops_l) + sum(n or 0 for n in meas_l)
             tp = None if trainable is None else sorted(rng.sample(range(max(npar, 1)), min(trainable, max(npar, 1))))
-            return {"__class__": "QuantumScript", "_ops": [op(n) for n in ops_l],
-                    "_measurements": [{"__class__": "MeasurementProcess", "obs": None if n is None else op(n)} for n in meas_l],
-                    "_trainable_params": tp, "_shots": f"L{rng.randint(0, 9)}"}
+            d = {"__class__": "QuantumScript", "_ops": [op(n) for n in ops_l],
+                 "_measurements": [{"__class__": "MeasurementProcess", "obs": None if n is None else op(n)} for n in meas_l],
+                 "_trainable_params": tp, "_shots": f"L{rng.randint(0, 9)}"}
+            if memo:
+                d["hash"] = "L0"
+            return d
         return T("build", mk, gen=gen)
 
     def int_list_t(n, lo=-2, hi=9):
@@ -195,6 +204,12 @@ def build(tier, seed):
     def stored_trainable(s):
         t = s.f["_trainable_params"] if sym(s) else s._trainable_params
         return None if t is None else items(t)
+
+    def has_memo(s):
+        return ("hash" in s.f) if sym(s) else ("hash" in s.__dict__)
+
+    def memo_of(s):
+        return s.f["hash"] if sym(s) else s.__dict__["hash"]
 
     def shots_of(s):
         return s.f["_shots"] if sym(s) else s._shots
@@ -399,7 +414,7 @@ def build(tier, seed):
                                   ("operations+measurements", {"operations": "O", "measurements": "M"})):
                     if "trainable_params" in kw and npar == 0:
                         continue        # no valid index to hand over on a parameter-free circuit
-                    params = {"self": script_t(shape, tr)}
+                    params = {"self": script_t(shape, tr, memo=(si in (1, 4) and tr is None))}
                     if "copy_operations" in kw:
                         params["copy_operations"] = T("const", True)
                     upd = {}
@@ -430,6 +445,10 @@ def build(tier, seed):
                         new_ops = getattr(o, upd["operations"]) if "operations" in upd else (getattr(o, upd["ops"]) if "ops" in upd else None)
                         new_meas = getattr(o, upd["measurements"]) if "measurements" in upd else None
                         conj = [unchanged_mod_trainable(o.self, n.self), ops_list_fresh(r, n.self), valid_trainable(r)]
+                        # C05: a memoised fingerprint may only travel with the copy when operations, measurements, trainable
+                        # indices and shots are all the original's (the fingerprint is a function of exactly these)
+                        if has_memo(r):
+                            conj.append(has_memo(o.self) and eq(memo_of(r), memo_of(o.self)) and not (set(upd) & {"shots", "trainable_params", "operations", "ops", "measurements"}))
                         deep = bool(kw)       # copy_operations=True or any update: operators are shallow-copied
                         if new_ops is not None:
                             conj.append(same_objs(ops_of(r), items(new_ops)))
